@@ -16,6 +16,8 @@ def cases(tier, rng):
         d = (rng.randrange(-50, 51), rng.randrange(-50, 51))
         yield J('rr_all', *g)
         yield J('rr_all', g[0] + d[0], g[1] + d[1], *g[2:])
+        yield J('rr_translate', *g, *d)
+        yield J('rr_translate', *g, rng.randrange(-2000, 2001), rng.randrange(-2000, 2001))
 
 
 def search(tier, rng):
